@@ -922,29 +922,32 @@ Section Theorems.
   Proof. unfold od_ok. destruct (od_tmpl w) as [[d|]|]; auto. intros. apply in_or_app. now left. Qed.
 
   Variable fixed : bool.
+  Variable scoped : bool.
 
-  (** digests of the specs that were current at a pass whose oracle satisfies [good] *)
-  Fixpoint goods_of (good : oracle -> bool) (steps : list step) (w : world) (f : list rstat) (d : list bool) : list N :=
+  (** digests of the specs that were current at a pass whose oracle, among the peers of that
+      moment, satisfies [good] *)
+  Fixpoint goods_of (good : peers -> oracle -> bool) (steps : list step) (w : world) (f : list rstat) (d : list bool) : list N :=
     match steps with
     | [] => []
     | SEdit sp :: r => goods_of good r (edit sp w) f d
     | SFault n k :: r => goods_of good r w (arm (N.to_nat n) k f) d
     | SDisturb n :: r => goods_of good r w f (armb (N.to_nat n) d)
     | SPass o :: r =>
-        (if good o then [spec_digest digest (p_spec (w_pkg w))] else [])
-        ++ goods_of good r (st_w (r_st (do_pass digest fixed o w f d))) [] []
+        (if good (w_peers w) o then [spec_digest digest (p_spec (w_pkg w))] else [])
+        ++ goods_of good r (st_w (r_st (do_pass digest fixed scoped o w f d))) [] []
     end.
-  Notation goods := (goods_of (deployable fixed)).
+  (** "deployable" as the controller itself judges it *)
+  Definition judged (ps : peers) (o : oracle) : bool := deployable fixed (seen scoped ps o).
+  Notation goods := (goods_of judged).
 
-  Lemma pass_od_ok G o w f d :
-    od_ok G w ->
-    od_ok (G ++ (if deployable fixed o then [spec_digest digest (p_spec (w_pkg w))] else []))
-          (st_w (r_st (do_pass digest fixed o w f d))).
+  Lemma reconcile_od_ok G o s :
+    od_ok G (st_w s) ->
+    od_ok (G ++ (if deployable fixed o then [spec_digest digest (p_spec (w_pkg (st_w s)))] else []))
+          (st_w (r_st (reconcile digest fixed o s))).
   Proof.
-    intros H. unfold do_pass.
-    set (s := {| st_w := w; st_f := f; st_d := d; st_dirty := false; st_log := [] |}).
-    set (G' := G ++ (if deployable fixed o then [spec_digest digest (p_spec (w_pkg w))] else [])).
-    apply (reconcile_inv digest fixed o (od_ok G') (w_pkg w)).
+    intros H.
+    set (G' := G ++ (if deployable fixed o then [spec_digest digest (p_spec (w_pkg (st_w s)))] else [])).
+    apply (reconcile_inv digest fixed o (od_ok G') (w_pkg (st_w s))).
     - intros p w' Hw'. exact Hw'.
     - intros w' Hw'. exact Hw'.
     - intros b w' Hw'. unfold od_ok in *. now rewrite (same_od_pause b w').
@@ -952,16 +955,21 @@ Section Theorems.
     - intros Hd w' Hw'. unfold od_ok, od_tmpl, eff_update in *. destruct (w_od w') eqn:E; cbn; [|now rewrite E in *].
       unfold G'. rewrite Hd. apply in_or_app. right. now left.
     - reflexivity.
-    - cbn. unfold G'. now apply od_ok_mono.
+    - unfold G'. now apply od_ok_mono.
   Qed.
 
-  (** At every point of every history (edits, faults, third-party writes, passes with arbitrary oracle outcomes): the
-      stored ObjectDeployment's template is empty or the render of a spec that was current at a
-      pass where the package was deployable.  With [fixed = true] deployable means valid and
-      admissible ([all_ok]); with [fixed = false] (the code as it is) it only means that every
-      stage other than the constraint check passes ([stages_ok]). *)
+  Lemma pass_od_ok G o w f d :
+    od_ok G w ->
+    od_ok (G ++ (if judged (w_peers w) o then [spec_digest digest (p_spec (w_pkg w))] else []))
+          (st_w (r_st (do_pass digest fixed scoped o w f d))).
+  Proof. intros H. unfold do_pass, judged. now apply (reconcile_od_ok G _ {| st_w := w; st_f := f; st_d := d; st_dirty := false; st_log := [] |}). Qed.
+
+  (** At every point of every history (edits, faults, third-party writes, passes with arbitrary
+      oracle outcomes): the stored ObjectDeployment's template is empty or the render of a spec
+      that was current at a pass where the controller judged the package deployable.  With
+      [fixed = true] and [scoped = true] that is: valid and admissible. *)
   Theorem od_history steps : forall w f d G,
-    od_ok G w -> od_ok (G ++ goods steps w f d) (final digest fixed steps w f d).
+    od_ok G w -> od_ok (G ++ goods steps w f d) (final digest fixed scoped steps w f d).
   Proof.
     induction steps as [|x steps IH]; intros w f d G H; cbn.
     - now rewrite app_nil_r.
@@ -972,9 +980,9 @@ Section Theorems.
       + rewrite app_assoc. apply IH. now apply pass_od_ok.
   Qed.
 
-  Corollary od_history_init steps sp :
-    od_ok (goods steps (init_world sp) [] []) (final digest fixed steps (init_world sp) [] []).
-  Proof. apply (od_history steps (init_world sp) [] [] []). exact Logic.I. Qed.
+  Corollary od_history_init steps sp ps :
+    od_ok (goods steps (init_world sp ps) [] []) (final digest fixed scoped steps (init_world sp ps) [] []).
+  Proof. apply (od_history steps (init_world sp ps) [] [] []). exact Logic.I. Qed.
 End Theorems.
 
 (** ** Passes without API faults: a pull failure, a load failure and (repaired Deploy) an unmet
@@ -1079,17 +1087,259 @@ Qed.
     into its continuation has stored the template [t] (when there is an ObjectDeployment). *)
 Theorem update_loop_writes n t (k : st -> result) (P : result -> Prop) s :
   (forall s', od_tmpl (st_w s') = option_map (fun _ => t) (w_od (st_w s)) -> w_pkg (st_w s') = w_pkg (st_w s) -> P (k s')) ->
-  (forall s', P (fail s')) ->
+  (forall s', w_pkg (st_w s') = w_pkg (st_w s) -> P (fail s')) ->
   P (update_loop n t s k).
 Proof.
+  assert (Hpk : forall w, w_pkg (eff_update t w) = w_pkg w) by (intros w; unfold eff_update; now destruct (w_od w)).
   revert s. induction n as [|n IH]; intros s Hk Hfail; cbn [update_loop].
-  - apply call_gen_wp; [intros; apply Hfail| |discriminate|].
+  - apply call_gen_wp; [intros s' r _ [Hw|[_ Hw]]; apply Hfail; rewrite Hw; [reflexivity|apply Hpk]| |discriminate|].
     + intros _ s' _ Hw. apply Hk; rewrite Hw; unfold od_tmpl, eff_update; destruct (w_od (st_w s)) eqn:E; cbn; rewrite ?E; reflexivity.
-    + intros _ s' _ Hw. apply call_wp; [intros; apply Hfail|intros; apply Hfail|discriminate].
-  - apply call_gen_wp; [intros; apply Hfail| |discriminate|].
+    + intros _ s' _ Hw. apply call_wp; [|intros _ s2 _ Hw2; apply Hfail; now rewrite Hw2, Hw|discriminate].
+      intros s2 r _ [Hw2|[_ Hw2]]; apply Hfail; now rewrite Hw2, Hw.
+  - apply call_gen_wp; [intros s' r _ [Hw|[_ Hw]]; apply Hfail; rewrite Hw; [reflexivity|apply Hpk]| |discriminate|].
     + intros _ s' _ Hw. apply Hk; rewrite Hw; unfold od_tmpl, eff_update; destruct (w_od (st_w s)) eqn:E; cbn; rewrite ?E; reflexivity.
-    + intros _ s' _ Hw. apply call_wp; [intros; apply Hfail| |discriminate].
-      intros _ s2 _ Hw2. apply IH; [|assumption]. intros s3 H3 H4. apply Hk; [now rewrite H3, Hw2, Hw|now rewrite H4, Hw2, Hw].
+    + intros _ s' _ Hw. apply call_wp; [| |discriminate].
+      * intros s2 r _ [Hw2|[_ Hw2]]; apply Hfail; now rewrite Hw2, Hw.
+      * intros _ s2 _ Hw2. apply IH.
+        -- intros s3 H3 H4. apply Hk; [now rewrite H3, Hw2, Hw|now rewrite H4, Hw2, Hw].
+        -- intros s3 H3. apply Hfail. now rewrite H3, Hw2, Hw.
+Qed.
+
+(** ** status.unpackedHash and the template move together.
+    Whatever happens in a pass (errors, lost responses, conflicts): the persisted unpackedHash
+    either stays what it was or becomes the hash of the spec the pass started with - and in the
+    latter case the pull succeeded and, if the controller judged the package deployable, the
+    stored template is the render of that spec at the end of the pass. *)
+Section HashMoves.
+  Variable digest : N -> N -> N -> N.
+  Variable fixed : bool.
+  Variable o : oracle.
+  Variable p0 : pkg.
+
+  Definition synced (w : world) : Prop :=
+    deployable fixed o = true -> od_tmpl w = Some (Some (spec_digest digest (p_spec p0))).
+  (** the in-memory Package [p] may be written to the status while the stored objects are [w] *)
+  Definition writable (p : pkg) (w : world) : Prop :=
+    p_hash p = p_hash p0 \/ (p_hash p = Some (p_spec p0) /\ o_pull o = true /\ synced w).
+  Definition hash_inv (w : world) : Prop := writable (w_pkg w) w.
+  Definition hash_same (w : world) : Prop := p_hash (w_pkg w) = p_hash p0.
+  Definition Hq (r : result) : Prop := hash_inv (st_w (r_st r)).
+
+  Lemma hash_same_inv w : hash_same w -> hash_inv w.
+  Proof. intros H. now left. Qed.
+
+  Lemma fail_hq s : hash_same (st_w s) -> Hq (fail s).
+  Proof. intros H. now apply hash_same_inv. Qed.
+
+  (** a request that leaves the Package alone *)
+  Lemma call_hs k found eff s kok knf :
+    hash_same (st_w s) -> (forall w, w_pkg (eff w) = w_pkg w) ->
+    (found = true -> forall s', st_w s' = eff (st_w s) -> hash_same (st_w s') -> Hq (kok s')) ->
+    (found = false -> forall s', st_w s' = st_w s -> hash_same (st_w s') -> Hq (knf s')) ->
+    Hq (call k found eff s kok knf).
+  Proof.
+    intros Hs He Hok Hnf. apply call_wp.
+    - intros s' r _ [Hw|[_ Hw]]; apply fail_hq; unfold hash_same; rewrite Hw, ?He; exact Hs.
+    - intros Hf s' _ Hw. apply Hok; [exact Hf|exact Hw|]. unfold hash_same. now rewrite Hw, He.
+    - intros Hf s' _ Hw. apply Hnf; [exact Hf|exact Hw|]. unfold hash_same. now rewrite Hw.
+  Qed.
+
+  Lemma update_status_hq p rq s : hash_same (st_w s) -> writable p (st_w s) -> Hq (update_status p rq s).
+  Proof.
+    intros Hs Hwr. unfold update_status.
+    assert (Hafter : hash_inv (eff_status p (st_w s))).
+    { unfold hash_inv, writable, synced in *. cbn. exact Hwr. }
+    apply call_wp.
+    - intros s' r _ [Hw|[_ Hw]]; unfold Hq, fail; cbn; rewrite Hw; [now apply hash_same_inv|exact Hafter].
+    - intros _ s' _ Hw. unfold Hq. cbn. rewrite Hw. exact Hafter.
+    - discriminate.
+  Qed.
+
+  Lemma status_reconcile_hq s k :
+    hash_same (st_w s) -> (forall s', st_w s' = st_w s -> Hq (k s')) -> Hq (status_reconcile s k).
+  Proof.
+    intros Hs Hk. unfold status_reconcile. apply call_hs; auto.
+  Qed.
+
+  Lemma after_unpack_hq p s : hash_same (st_w s) -> writable p (st_w s) -> Hq (after_unpack p s).
+  Proof.
+    intros Hs Hwr. unfold after_unpack. apply status_reconcile_hq; [assumption|].
+    intros s' Hw. apply update_status_hq; unfold hash_same; rewrite Hw; assumption.
+  Qed.
+
+  Lemma unpacked_hq p s :
+    hash_same (st_w s) -> p_spec p = p_spec p0 -> o_pull o = true -> synced (st_w s) -> Hq (unpacked p s).
+  Proof.
+    intros Hs Hp Hpull Hsy. unfold unpacked. apply after_unpack_hq; [assumption|].
+    right. cbn. rewrite Hp. repeat split; assumption.
+  Qed.
+
+  Lemma deployment_reconcile_hq p s :
+    hash_same (st_w s) -> p_spec p = p_spec p0 -> o_pull o = true -> Hq (deployment_reconcile digest p s).
+  Proof.
+    intros Hs Hp Hpull. unfold deployment_reconcile. rewrite Hp.
+    assert (Hupd : forall s1, hash_same (st_w s1) -> w_od (st_w s1) <> None ->
+      Hq (update_loop (pred retry_steps) (Some (spec_digest digest (p_spec p0))) s1
+          (fun s2 => call KListSet true (fun w => w) s2
+             (fun s3 => call KListSlice true (fun w => w) s3
+                (fun s4 => unpacked (with_conds p (remove_cond CInvalid (p_conds p))) s4) fail) fail))).
+    { intros s1 H1 Hod. apply update_loop_writes.
+      - intros s2 Ht Hpk.
+        assert (H2 : hash_same (st_w s2)) by (unfold hash_same; now rewrite Hpk).
+        assert (Hsy : synced (st_w s2)).
+        { intros _. rewrite Ht. destruct (w_od (st_w s1)); [reflexivity|congruence]. }
+        apply call_wp; [intros s3 r _ [Hw|[_ Hw]]; apply fail_hq; unfold hash_same; now rewrite Hw| |discriminate].
+        intros _ s3 _ Hw3. apply call_wp; [intros s4 r _ [Hw|[_ Hw]]; apply fail_hq; unfold hash_same; now rewrite Hw, Hw3| |discriminate].
+        intros _ s4 _ Hw4. apply unpacked_hq; [unfold hash_same; now rewrite Hw4, Hw3|exact Hp|exact Hpull|].
+        unfold synced. now rewrite Hw4, Hw3.
+      - intros s2 Hpk. apply fail_hq. unfold hash_same. now rewrite Hpk. }
+    apply call_hs; [assumption|reflexivity| |].
+    - intros Hf s1 Hw1 H1. apply Hupd; [assumption|]. rewrite Hw1. destruct (w_od (st_w s)); [discriminate|discriminate].
+    - intros _ s1 Hw1 H1. apply call_hs; [assumption|reflexivity| |discriminate].
+      intros _ s2 Hw2 H2. apply Hupd; [assumption|]. rewrite Hw2. discriminate.
+  Qed.
+
+  Lemma deploy_rest_hq p msgs s :
+    (deployable fixed o = true -> fixed && negb (is_nil msgs) = false) ->
+    hash_same (st_w s) -> p_spec p = p_spec p0 -> o_pull o = true -> Hq (deploy_rest digest fixed o p msgs s).
+  Proof.
+    intros Hm Hs Hp Hpull. unfold deploy_rest.
+    destruct (fixed && negb (is_nil msgs)) eqn:Efx.
+    - apply unpacked_hq; [assumption|now destruct (is_nil msgs)|assumption|].
+      intros Hd. specialize (Hm Hd). discriminate.
+    - destruct (o_config o); try now apply fail_hq.
+      destruct (o_images o); cbn [negb]; [|now apply fail_hq].
+      destruct (o_render o); cbn [negb]; [|now apply fail_hq].
+      apply deployment_reconcile_hq; [assumption|now destruct (is_nil msgs)|assumption].
+  Qed.
+
+  Lemma deploy_hq p s :
+    hash_same (st_w s) -> p_spec p = p_spec p0 -> o_pull o = true -> Hq (deploy digest fixed o p s).
+  Proof.
+    intros Hs Hp Hpull. unfold deploy.
+    change (hash_same (st_w s)) with (hash_same (st_w (logev s EDeploy))) in Hs. set (s1 := logev s EDeploy) in *. clearbody s1.
+    destruct (o_load o) eqn:El; cbn [negb].
+    2:{ apply unpacked_hq; [assumption|exact Hp|assumption|].
+        intros Hd. unfold deployable, all_ok, stages_ok in Hd. rewrite El, andb_false_r in Hd. now destruct fixed. }
+    destruct (o_range_ok o) eqn:Er; cbn [negb]; [|now apply fail_hq].
+    (* if the package is deployable there are no messages *)
+    assert (Hnomsg : forall msgs : list ckind, (msgs = [] <-> unmet o = false) ->
+                     deployable fixed o = true -> fixed && negb (is_nil msgs) = false).
+    { intros msgs Hiff Hd. destruct fixed; [|reflexivity]. cbn. unfold deployable, all_ok in Hd.
+      apply andb_true_iff in Hd. destruct Hd as [_ Hu]. apply negb_true_iff in Hu.
+      apply Hiff in Hu. now subst msgs. }
+    destruct (o_unique o) as [l|] eqn:Eu.
+    - apply call_hs; [assumption|reflexivity| |discriminate].
+      intros _ s2 _ H2. destruct (N.eqb_spec l 0); [now apply fail_hq|].
+      destruct (N.eqb_spec l 1) as [->|Hl1].
+      + apply deploy_rest_hq; try assumption. apply Hnomsg.
+        unfold unmet, unique_unmet. rewrite Eu. cbn. rewrite orb_false_r. destruct (o_unmet o); cbn; split; congruence.
+      + apply deploy_rest_hq; try assumption. apply Hnomsg.
+        unfold unmet, unique_unmet. rewrite Eu. assert (H2l : (2 <=? l) = true) by (apply N.leb_le; lia). rewrite H2l, orb_true_r.
+        split; [destruct (o_unmet o); discriminate|discriminate].
+    - apply deploy_rest_hq; try assumption. apply Hnomsg.
+      unfold unmet, unique_unmet. rewrite Eu, orb_false_r. destruct (o_unmet o); cbn; split; congruence.
+  Qed.
+
+  Lemma unpack_hq s : hash_same (st_w s) -> Hq (unpack digest fixed o p0 s).
+  Proof.
+    intros Hs. unfold unpack. destruct (hash_eqb (p_hash p0) (p_spec p0)).
+    - apply after_unpack_hq; [assumption|now left].
+    - destruct (o_pull o) eqn:Ep; cbn [negb].
+      + apply deploy_hq; [exact Hs|reflexivity|exact Ep].
+      + apply update_status_hq; [exact Hs|now left].
+  Qed.
+
+  Theorem reconcile_hq s : w_pkg (st_w s) = p0 -> Hq (reconcile digest fixed o s).
+  Proof.
+    intros Hp0. assert (Hs : hash_same (st_w s)) by (unfold hash_same; now rewrite Hp0).
+    unfold Package.reconcile.
+    apply call_hs; [assumption|reflexivity| |discriminate].
+    intros _ s1 Hw1 H1. rewrite Hw1, Hp0.
+    assert (Hsub : forall s', hash_same (st_w s') ->
+       Hq (if s_paused (p_spec p0) then status_reconcile s' (update_status p0 false) else unpack digest fixed o p0 s')).
+    { intros s' H'. destruct (s_paused (p_spec p0)).
+      - apply status_reconcile_hq; [assumption|]. intros s2 Hw2.
+        apply update_status_hq; [unfold hash_same; now rewrite Hw2|now left].
+      - now apply unpack_hq. }
+    assert (Hpause : forall b w, w_pkg (eff_pause b w) = w_pkg w) by (intros b w; unfold eff_pause; now destruct (w_od w)).
+    assert (Hk : forall s2, hash_same (st_w s2) ->
+      Hq (if Bool.eqb (s_paused (p_spec p0)) (match w_od (st_w s2) with Some d => d_paused d | None => false end)
+          then (if s_paused (p_spec p0) then status_reconcile s2 (update_status p0 false) else unpack digest fixed o p0 s2)
+          else call KPauseOD (is_some (w_od (st_w s2))) (eff_pause (s_paused (p_spec p0))) s2
+                (fun s3 => if s_paused (p_spec p0) then status_reconcile s3 (update_status p0 false)
+                           else unpack digest fixed o p0 s3) fail)).
+    { intros s2 H2. destruct (Bool.eqb _ _); [now apply Hsub|].
+      apply call_hs; [assumption|apply Hpause|intros; now apply Hsub|intros; now apply fail_hq]. }
+    apply call_hs; [assumption|reflexivity|intros; now apply Hk|intros; now apply Hk].
+  Qed.
+End HashMoves.
+
+(** the theorem in terms of a pass *)
+Theorem hash_moves digest fixed o s :
+  let p := w_pkg (st_w s) in let r := pass_gen digest fixed o s in
+  p_hash (stored_pkg r) = p_hash p \/
+  (p_hash (stored_pkg r) = Some (p_spec p) /\ o_pull o = true /\
+   (deployable fixed o = true -> od_tmpl (st_w (r_st r)) = Some (Some (spec_digest digest (p_spec p))))).
+Proof. intros p r. exact (reconcile_hq digest fixed o p s eq_refl). Qed.
+
+(** ** uniqueInScope: the peers of the world decide *)
+
+Lemma listed_mono ps : listed true ps <= listed false ps.
+Proof. unfold listed. destruct (self_labelled ps); lia. Qed.
+
+Lemma seen_unique scoped ps o : o_unique o <> None -> o_unique (seen scoped ps o) = Some (listed scoped ps).
+Proof. unfold seen. destruct (o_unique o); [reflexivity|congruence]. Qed.
+
+Lemma seen_fields scoped ps o :
+  o_pull (seen scoped ps o) = o_pull o /\ o_load (seen scoped ps o) = o_load o /\
+  o_range_ok (seen scoped ps o) = o_range_ok o /\ o_unmet (seen scoped ps o) = o_unmet o /\
+  o_config (seen scoped ps o) = o_config o /\ o_images (seen scoped ps o) = o_images o /\
+  o_render (seen scoped ps o) = o_render o.
+Proof. unfold seen. destruct (o_unique o); repeat split. Qed.
+
+(** A uniqueInScope constraint that is not met - at least two (Cluster)Packages carry the
+    manifest's package label in the scope of the Package - blocks the deployment write, whichever
+    of the two Lists is used, for every flavour (the model does not distinguish Package and
+    ClusterPackage: a ClusterPackage has no peers elsewhere), under all faults and third-party
+    writes ... *)
+Theorem unique_unmet_blocks digest scoped o w f d :
+  o_unique o <> None -> 2 <= listed true (w_peers w) ->
+  let r := do_pass digest true scoped o w f d in
+  none_of is_od_write (st_log (r_st r)) = true /\ od_tmpl (st_w (r_st r)) = od_tmpl w.
+Proof.
+  intros Hu H2 r.
+  assert (Hun : unmet (seen scoped (w_peers w) o) = true).
+  { unfold unmet, unique_unmet. rewrite (seen_unique _ _ _ Hu).
+    assert (H : (2 <=? listed scoped (w_peers w)) = true).
+    { apply N.leb_le. destruct scoped; [assumption|]. pose proof (listed_mono (w_peers w)). lia. }
+    now rewrite H, orb_true_r. }
+  destruct (invalid_no_deploy_unmet digest _ {| st_w := w; st_f := f; st_d := d; st_dirty := false; st_log := [] |} Hun)
+    as (l & Hl & Hn & Ht).
+  unfold new_events in Hl. cbn in Hl. split; [|exact Ht].
+  unfold r, do_pass. unfold pass_gen in Hl. now rewrite Hl.
+Qed.
+
+(** ... and is reported: every error-free pass that got to the constraint check persists
+    Invalid=True/ConstraintsFailed (and Unpacked=True with the hash, so it is not retried). *)
+Theorem unique_unmet_reported digest scoped o w f d :
+  o_unique o <> None -> 2 <= listed true (w_peers w) ->
+  let r := do_pass digest true scoped o w f d in
+  reach (w_pkg w) = true -> o_pull o = true -> o_load o = true -> r_err r = false ->
+  has_cond CInvalid true RConstraintsFailed (p_conds (stored_pkg r)) = true /\
+  p_hash (stored_pkg r) = Some (p_spec (w_pkg w)).
+Proof.
+  intros Hu H2 r Hreach Hp Hl He.
+  assert (Hun : unmet (seen scoped (w_peers w) o) = true).
+  { unfold unmet, unique_unmet. rewrite (seen_unique _ _ _ Hu).
+    assert (H : (2 <=? listed scoped (w_peers w)) = true).
+    { apply N.leb_le. destruct scoped; [assumption|]. pose proof (listed_mono (w_peers w)). lia. }
+    now rewrite H, orb_true_r. }
+  destruct (seen_fields scoped (w_peers w) o) as (F1 & F2 & _).
+  destruct (constraints_failure_condition digest (seen scoped (w_peers w) o)
+              {| st_w := w; st_f := f; st_d := d; st_dirty := false; st_log := [] |}) as (_ & Hc & Hh);
+    try assumption; try congruence.
+  split; assumption.
 Qed.
 
 (** the code before cb58cda *)
@@ -1101,7 +1351,7 @@ Definition wit_spec : spec := {| s_image := 1; s_config := 0; s_comp := 0; s_pau
 Definition wit_oracle : oracle :=
   {| o_pull := true; o_load := true; o_range_ok := true; o_unmet := [KPlatform]; o_unique := None;
      o_config := CfgOk; o_images := true; o_render := true |}.
-Definition wit_start : st := {| st_w := init_world wit_spec; st_f := []; st_d := []; st_dirty := false; st_log := [] |}.
+Definition wit_start : st := {| st_w := init_world wit_spec no_peers; st_f := []; st_d := []; st_dirty := false; st_log := [] |}.
 
 Theorem constraints_block_refuted :
   exists (o : oracle) (s : st),
@@ -1117,5 +1367,51 @@ Proof. exists wit_oracle, wit_start. vm_compute. repeat split. Qed.
 (** ... and hence the history invariant with "deployable = valid and admissible" fails for it *)
 Theorem od_history_refuted :
   exists steps sp,
-    od_okb (goods_of wit_digest false all_ok steps (init_world sp) [] []) (final wit_digest false steps (init_world sp) [] []) = false.
+    od_okb (goods_of wit_digest false true (fun ps o => all_ok (seen true ps o)) steps (init_world sp no_peers) [] [])
+           (final wit_digest false true steps (init_world sp no_peers) [] []) = false.
 Proof. exists [SPass wit_oracle], wit_spec. vm_compute. reflexivity. Qed.
+
+(** What the List of the code as it is ([scoped = false]) gets wrong (REFUTED clauses):
+    (1) a valid package whose manifest is unique in its scope is NOT rolled out as soon as any
+        other (Cluster)Package exists - here one that does not carry the label at all;
+    (2) a Package that does not carry the label itself (nobody in scope does: the constraint cannot
+        be evaluated, validateUnique's own ErrNonExisting case) IS rolled out. *)
+Definition uniq_oracle : oracle :=
+  {| o_pull := true; o_load := true; o_range_ok := true; o_unmet := []; o_unique := Some 0;
+     o_config := CfgOk; o_images := true; o_render := true |}.
+Definition one_stranger : peers := {| n_same := 0; n_elsewhere := 0; n_unrelated := 1; self_labelled := true |}.
+Definition unlabelled : peers := {| n_same := 0; n_elsewhere := 0; n_unrelated := 0; self_labelled := false |}.
+
+Theorem unique_scope_refuted :
+  (let r := do_pass wit_digest true false uniq_oracle (init_world wit_spec one_stranger) [] [] in
+   all_ok (seen true one_stranger uniq_oracle) = true /\ r_err r = false /\
+   od_tmpl (st_w (r_st r)) = None /\
+   has_cond CInvalid true RConstraintsFailed (p_conds (stored_pkg r)) = true) /\
+  (let r := do_pass wit_digest true false uniq_oracle (init_world wit_spec unlabelled) [] [] in
+   cons_err (seen true unlabelled uniq_oracle) = true /\ r_err r = false /\
+   od_tmpl (st_w (r_st r)) = Some (Some (spec_digest wit_digest wit_spec))).
+Proof. vm_compute. repeat split. Qed.
+
+
+(** "Whenever status.unpackedHash is the hash of the current spec, the stored template is the render
+    of that spec" is NOT an invariant of the code as it is (nor of the model with the scoped List):
+    a pass for spec B that fails after its Update leaves B's template with A's hash; if the user
+    goes back to A before the retry, the next pass takes the short cut and the ObjectDeployment
+    keeps B's render for good.  ([hash_moves] is what does hold: the hash only moves together with
+    the template.) *)
+Definition plain_ok : oracle :=
+  {| o_pull := true; o_load := true; o_range_ok := true; o_unmet := []; o_unique := None;
+     o_config := CfgOk; o_images := true; o_render := true |}.
+Definition wit_spec_b : spec := {| s_image := 2; s_config := 0; s_comp := 0; s_paused := false |}.
+Definition revert_steps : list step :=
+  [SPass plain_ok; SEdit wit_spec_b; SFault 4 SErr; SPass plain_ok; SEdit wit_spec; SPass plain_ok; SPass plain_ok].
+
+Theorem hash_fit_refuted :
+  forall scoped,
+    let w := final wit_digest true scoped revert_steps (init_world wit_spec no_peers) [] [] in
+    p_spec (w_pkg w) = wit_spec /\ p_hash (w_pkg w) = Some wit_spec /\
+    od_tmpl w = Some (Some (spec_digest wit_digest wit_spec_b)) /\
+    spec_digest wit_digest wit_spec_b <> spec_digest wit_digest wit_spec /\
+    forallb ob_err (run wit_digest true scoped revert_steps (init_world wit_spec no_peers) [] [])
+      = false.
+Proof. intros [|]; vm_compute; repeat split; discriminate. Qed.
